@@ -494,8 +494,10 @@ def _validate_event_connectivity(
             f"The following events are produced but never consumed: {names}"
         )
 
-    return (
-        InputRequiredEvent in produced_events or HumanResponseEvent in consumed_events
+    # Subclasses count: a workflow that emits its own InputRequiredEvent subclass
+    # (or consumes a HumanResponseEvent subclass) is human-in-the-loop too.
+    return any(issubclass(x, InputRequiredEvent) for x in produced_events) or any(
+        issubclass(x, HumanResponseEvent) for x in consumed_events
     )
 
 
